@@ -793,7 +793,7 @@ func (e *Angine) RecoverFromCrash(appHash []byte, appBlockHeight int64) error {
 		stateAppHash := e.stateMachine.AppHash
 		lastBlockAppHash := e.blockstore.LoadBlock(storeBlockHeight).AppHash
 
-		if bytes.Equal(stateAppHash, appHash) {
+		if bytes.Equal(stateAppHash, appHash) && stateBlockHeight == storeBlockHeight {
 			// we're all synced up
 			log.Debug("RelpayBlocks: Already synced")
 		} else if bytes.Equal(stateAppHash, lastBlockAppHash) {
